@@ -322,6 +322,15 @@ class Stream:
         #      transaction of ours is the reply to our primary, not a primary — an odd function is always a primary)
         if oracle and comm == "COMMUNICATING" and selected and not (f % 2 == 0 and system in waiting):
             self.judge(case, s, f, w, system, hdr, has_cb, outcome, inside, mine, foreign)
+        elif oracle and comm == "WAIT_CRA" and selected and (s, f) == (1, 13) and w:
+            # the exchange that establishes communication: the peer's S1F13 arriving while our own S1F13 is outstanding is answered
+            # by the handler itself - with exactly one S1F14 carrying its system bytes, not once more by the callback afterwards
+            data = [fr for fr in mine if fr[0] == "D"]
+            show = [f"S{fr[1]}F{fr[2]} sys={fr[4]} body={fr[5].hex()[:40]}" for fr in data]
+            if len(data) != 1 or (data[0][1], data[0][2]) != (1, 14):
+                res.violate("multiple-replies" if len(data) > 1 else ("no-reply" if not data else "wrong-reply"),
+                            f"S1F13 W received in WAIT_CRA (both sides establish at the same time): expected exactly one S1F14 with system bytes "
+                            f"{system}, got {show}; communication state afterwards {rig.comm()}", case, "one S1F14", show)
         return mine
 
     def judge(self, case, s, f, w, system, hdr, has_cb, outcome, inside, mine, foreign):
@@ -534,6 +543,25 @@ def gate_cases(role, res, flags):
             st.rig.select()
         for (s, f, w) in ((1, 1, 1), (1, 3, 1), (99, 1, 1), (1, 1, 0), (2, 41, 1)):
             st.send(s, f, w, b"", "gate-" + stage)
+        out.append(st)
+    # the peer's S1F13 crosses ours: received in WAIT_CRA (after select; after a T3/delay round; after a reconnect), then the
+    # handler is COMMUNICATING and a further S1F13 is answered by the callback - each with exactly one S1F14
+    for prep in ("select", "retry", "reconnect"):
+        st = Stream(role, res, flags, stage="waitcra")
+        if prep == "retry":
+            st.rig.fire(st.rig.h._communication_state._wait_cra_timer)
+            st.rig.fire(st.rig.h._communication_state._comm_delay_timer)
+        elif prep == "reconnect":
+            st.rig.lose()
+            st.rig.select()
+            for t in st.rig.timers("_on_wait_cra_timeout")[:1]:
+                st.rig.fire(t)
+            for t in st.rig.timers("_on_wait_comm_delay_timeout")[:1]:
+                st.rig.fire(t)
+        for body in (b"\x01\x00", b"", bytes.fromhex("0102410141410142")):
+            if st.rig.comm() != "WAIT_CRA" and body == b"\x01\x00":
+                raise RuntimeError(f"crossing S1F13: rig is in {st.rig.comm()}, not in WAIT_CRA")
+            st.send(1, 13, 1, body, "crossing-s1f13-" + prep)
         out.append(st)
     return out
 
